@@ -472,6 +472,14 @@ class C03(Family):
     prop = "C03"
     extra_modules = ["CtrlVerif.Props.C03FL",     # Faddeev-LeVerrier correct as an algorithm (no certificate hypothesis)
                      "CtrlVerif.Props.C03Rus"]    # remove_useless_states / configuration history preserve the map
+    extra_modules = extra_modules + ["CtrlVerif.Props.C03GenSS", "CtrlVerif.Props.C03GenTF",
+                                     "CtrlVerif.Props.C03GenData"]   # source-text tie (py2lean_conv)
+
+    def pre_build(self):
+        import os
+        from core import py2lean_conv, leanproj
+        problems, self.gen_info_conv = py2lean_conv.regenerate(os.environ.get("VERIF_REPO") or "/repo", leanproj.LEAN)
+        return problems
     externals = ["scipy.signal.tf2ss (exact counterpart in the model: normalize + controller canonical form)",
                  "scipy.signal.ss2tf / numpy.poly of eigenvalues (model: certified Faddeev-LeVerrier; "
                  "values compared at rational points within a conditioning-scaled tolerance)",
